@@ -252,6 +252,16 @@ func render(c taintCase) (out outputs, kinds map[int]string, fl *harness.Failure
 	for n, b := range res.Files {
 		out["publish:"+n] = b
 	}
+	// the same document object published again with other options: what the first publish
+	// left behind (caches on the document, package-level state) must not weaken the second
+	vis2 := map[string]string{"show": "placeholder", "placeholder": "hide", "hide": "show"}[c.Vis]
+	res2 := pub.Publish(doc, pub.All(vis2, 2))
+	if res2.Panic != "" || len(res2.Panics) > 0 || res2.Err != nil {
+		return nil, nil, harness.Failf("publish-failed", "publishing a second time (%s) failed: panic=%q render panics=%v err=%v", vis2, res2.Panic, res2.Panics, res2.Err)
+	}
+	for n, b := range res2.Files {
+		out["publish-again-"+vis2+":"+n] = b
+	}
 	// the diff report of the document against an edited copy of itself
 	g2, _ := c.graph()
 	if len(g2.People) > 0 {
@@ -347,8 +357,8 @@ func check(c taintCase) (fl *harness.Failure, st stats) {
 
 func TestCheckTaint(t *testing.T) {
 	s := harness.NewSub("tainted-documents",
-		"documents in which every value kind (given names, surnames, suffixes, further names and all NAME parts, sex, event values, dates alone and behind a keyword, places and countries, causes, notes at three levels, occupations, event types, identifiers, custom tag values, inline sources, marriage and divorce data, source titles and five kinds of source properties incl. nested ones, optionally the pointers themselves) carries a unique token Tq<n>x<\"'&>y; published with every visibility and a random page-group mask, plus the diff report (2 show x 2 sort) against an edited copy and six queries in HTML format; oracle: wherever a token id occurs, the bytes up to the closing y contain no raw < > \" ' and no bare &, every page tokenises and is well nested; each case is also run with benign values as a control; non-trivial = at least 5 distinct value kinds reach an output")
-	s.Rapid(t, harness.Share(harness.Pick(3200, 100000)), 180, func(rt *rapid.T) {
+		"documents in which every value kind (given names, surnames, suffixes, further names and all NAME parts, sex, event values, dates alone and behind a keyword, places and countries, causes, notes at three levels, occupations, event types, identifiers, custom tag values, inline sources, marriage and divorce data, source titles and five kinds of source properties incl. nested ones, optionally the pointers themselves) carries a unique token Tq<n>x<\"'&>y; published with a visibility and a random page-group mask, then the same document object again with another visibility and all page groups, plus the diff report (2 show x 2 sort) against an edited copy and six queries in HTML format; oracle: wherever a token id occurs, the bytes up to the closing y contain no raw < > \" ' and no bare &, every page tokenises and is well nested; each case is also run with benign values as a control; non-trivial = at least 5 distinct value kinds reach an output")
+	s.Rapid(t, harness.Share(harness.Pick(2000, 100000)), 180, func(rt *rapid.T) {
 		c := taintCase{
 			People: rapid.IntRange(1, 4).Draw(rt, "people"), Families: rapid.IntRange(0, 2).Draw(rt, "families"), Sources: rapid.IntRange(0, 2).Draw(rt, "sources"),
 			Vis:  rapid.SampledFrom([]string{"show", "show", "hide", "placeholder"}).Draw(rt, "vis"),
